@@ -126,7 +126,10 @@ def _one(sc, r):
         return ok
 
     # ---------------- (a) partitions ------------------------------------------------------------
-    def seg(a, t0, t1, reset):
+    def seg(a, t0, t1, reset, as_array=False):
+        # the documented type of start_time / end_time is int | jax.Array: both forms are driven
+        if as_array:
+            t0, t1 = jnp.asarray(t0, dtype=jnp.int32), jnp.asarray(t1, dtype=jnp.int32)
         return custom_fdtd_forward(
             arrays=a, objects=objects, config=config, key=key, reset_container=reset, record_detectors=True,
             start_time=t0, end_time=t1, show_progress=False,
@@ -138,14 +141,16 @@ def _one(sc, r):
         bounds = [0] + cuts + [T]
         a = arrays0
         t = None
+        as_array = bool(rng.integers(2))
+        r.branch("split_times_as_jax_array" if as_array else "split_times_as_int")
         for i in range(len(bounds) - 1):
-            t, a = seg(a, bounds[i], bounds[i + 1], i == 0)
+            t, a = seg(a, bounds[i], bounds[i + 1], i == 0, as_array)
         r.count("partitions")
         has_empty = any(bounds[i] == bounds[i + 1] for i in range(len(bounds) - 1))
         if has_empty:
             r.branch("partition_with_empty_piece")
-        sig = ("partition", min(npieces, 4), has_empty, dk) if nontriv else None
-        wit = {**wit0, "bounds": bounds}
+        sig = ("partition", min(npieces, 4), has_empty, as_array, dk) if nontriv else None
+        wit = {**wit0, "bounds": bounds, "times_as_jax_array": as_array}
         if int(t) != int(t_ref):
             r.violate(f"partitioned run ends at step {int(t)} != {int(t_ref)}", wit, sig=sig)
         else:
@@ -196,7 +201,7 @@ def _one(sc, r):
                     a = out
             elif op == "partial":
                 t1 = int(rng.integers(0, T + 1))
-                _, a = seg(a, 0, t1, True)
+                _, a = seg(a, 0, t1, True, bool(rng.integers(2)))
             elif op == "poison":
                 a = poison(a)
                 poisoned = True
